@@ -4,70 +4,9 @@ import json, os
 VERIF = os.path.dirname(os.path.dirname(os.path.abspath(__file__)))
 IDS = [json.loads(l)["id"] for l in open(os.path.join(VERIF, "properties.jsonl"))]
 
-CHECKS = {
- "C01": dict(
-   category="model_checking", design_ref="DESIGN.md 6/C01",
-   text="TLC enumerates every state of spec/MatVec.tla (all shapes up to 3x3 / 2x2 blocks, all sparsity patterns, band offset sets, "
-        "CSCR row lists, all apply/apply_transposed/axpy calls, alpha in {0,1,-1,2,-1/2,-5/2}, r aliasing y, blocked-vector variants); "
-        "every post-state, with the result predicted from Abs(rep) and the dense definition, is replayed on the real container for "
-        "float/double x uint32/uint64 and compared exactly, including that operands and matrix arrays are unchanged.",
-   note="exact-arithmetic domain only (small integers, dyadic alpha; alpha=-5/2 within a stated rounding bound); containers are built through "
-        "their raw-array constructors; trusted: TLC, spec/Storage.tla abstraction functions, harness/c01_matvec.cpp",
-   technique="TLA+ spec + TLC exhaustive generation of post-states replayed into the implementation (model-based testing)",
-   engine="lafem"),
- "C17": dict(
-   category="model_checking", design_ref="DESIGN.md 6/C17",
-   text="(M) spec/ThreadAsm.tla - master/worker fence protocol of DomainAssembler (layered, colored, no-scatter, master-run and failure paths, "
-        "repeated jobs) - is model checked by TLC over all interleavings for 2-4 workers: NoAdjacentScatter, CombineExclusive, EachCellOnce, "
-        "deadlock freedom and termination under weak fairness; spec/WorkDist.tla (transcription of _build_thread_layers) is checked against its "
-        "contract for every layer-size vector. (G) the real _build_thread_layers is driven with every enumerated layer structure and compared "
-        "with the transcription. (V) ~500 (quick) runs of the real threads over the TLC-enumerated configuration space (mesh x cell subset x "
-        "strategy x requested workers 0..cells+2 x scatter/combine x repeated jobs x injected task failure), under seeded schedule perturbation, "
-        "are logged through the FEAT3_VERIF_HOOKS fence/worker hooks and validated event by event by TLC against Trace_ThreadAsm.tla with the "
-        "real mesh adjacency; results are compared with the serial ones; abort/hang/exception outcomes are violations.",
-   note="all interleavings only in the model (small instances); real schedules are sampled. Event stamps come from one atomic counter, fence "
-        "events are stamped while the fence mutex is held. Physical data races additionally observed by ThreadSanitizer in the thorough tier. "
-        "Trusted: TLC, the hooks (add-only), harness/c17_threads.cpp",
-   technique="TLA+ protocol model checked by TLC + trace validation of recorded thread executions against the spec",
-   engine="threads"),
- "C09": dict(
-   category="model_checking", design_ref="DESIGN.md 6/C09",
-   text="spec/MGCycle.tla holds the documented V/F/W cycles declaratively (W in ruler order) plus the textbook recursion; spec/MGCycleOp.tla, a "
-        "statement-level transcription of _apply_cycle_v/_f/_w with the _counters array, is model checked by TLC for equivalence with the "
-        "declarative cycles for every (top,coarse) sub-range of up to 7 (thorough 9) levels and all left-over counter contents. TLC-generated "
-        "histories (cycle x smoother presence x coarse solver x sub-range x adaptive mode x repeated applications / set_cycle / set_levels) "
-        "with the call log and the Z_32003 correction predicted by the spec are replayed exactly into the unmodified Solver::MultiGrid through "
-        "duck-typed mock level types. Recorded runs of a real LAFEM Q1 Poisson hierarchy (levels 2..6/7) are validated by TLC: event grammar "
-        "of the Statistics expression log and the level-independent rate bound.",
-   note="cycle structure, linear map and adaptive step lengths exact and exhaustive within the bounds; convergence rate is a numeric projection "
-        "(max per-cycle residual ratio) judged by the spec (rate < 1/2 and <= rate(level 2)+0.15); serial hierarchies, Jacobi smoothing, 2D only",
-   technique="TLA+ spec model checked (transcription == declarative cycle) + TLC-generated behaviours replayed into the real MultiGrid over a finite field + trace validation of real runs",
-   engine="multigrid"),
- "C20": dict(
-   category="model_checking", design_ref="DESIGN.md 6/C20",
-   text="spec/Lifetime.tla models a pool of container slots and the MemoryPool chunk table; every action is one public lifetime call written as "
-        "the MemoryPool calls it performs (ctor in every shape incl. size-0 arrays, clone in all 5 modes within/across data and index types, "
-        "convert, move, move-ctor, ranged slice, layout sharing, clear, destroy, overwrite). TLC checks RefCount, NoLeak, NoDangling, EmptyAtEnd "
-        "on all histories to depth 3 (thorough 4) over 3 slots and seeded random histories of depth 9-14, and every history is replayed on real "
-        "containers in the ASan/UBSan build: reference counters (hook H1), aliasing classes, allocation sizes, contents and live chunk count "
-        "are compared with the predicted world after every step, and the pool must be empty after destroying everything.",
-   note="heap safety inside an operation is observed by ASan/UBSan during replay, not proved; DenseVector and SparseMatrixCSR families stand for "
-        "all containers (they share Container's lifetime code); the owner-outlives-slice obligation is an enabling condition of the spec",
-   technique="TLA+ state machine of reference-counted arrays model checked by TLC + exhaustive/simulated histories replayed into the implementation under ASan",
-   engine="lifetime"),
-}
-
-ENGINES = [
- {"name": "lafem", "path": "spec/MatVec.tla spec/Storage.tla spec/IntLinAlg.tla harness/c01_matvec.cpp checks/C01.py",
-  "serves_properties": ["C01"], "kind_free_text": "TLA+ module + TLC generator + C++ replayer"},
- {"name": "threads", "path": "spec/ThreadAsm.tla spec/Trace_ThreadAsm.tla spec/WorkDist.tla spec/MC_ThreadAsm.tla spec/MC_WorkDist.tla "
-                             "spec/ThreadCfg.tla harness/c17_threads.cpp lib/c17_mc.py checks/C17.py",
-  "serves_properties": ["C17"], "kind_free_text": "TLA+ protocol model (TLC model checking) + trace validation of hook-recorded executions"},
- {"name": "multigrid", "path": "spec/MGCycle.tla spec/MGCycleOp.tla spec/MGCycleGen.tla spec/MGCycleRate.tla harness/c09_mgmock.cpp harness/c09_mgreal.cpp checks/C09.py",
-  "serves_properties": ["C09"], "kind_free_text": "TLA+ cycle spec + TLC model checking + mock-algebra replay + trace validation"},
- {"name": "lifetime", "path": "spec/Lifetime.tla harness/c20_lifetime.cpp checks/C20.py",
-  "serves_properties": ["C20"], "kind_free_text": "TLA+ reference-count state machine + ASan replay"},
-]
+_E = json.load(open(os.path.join(VERIF, "lib", "manifest_entries.json")))
+CHECKS = _E["checks"]
+ENGINES = _E["engines"]
 
 PENDING_REASON = "check not built yet (work in progress, see DESIGN.md section 11)"
 NOT_APPLICABLE = {}
@@ -95,7 +34,7 @@ def main():
         hooks_commits = [l.split()[0] for l in open(hp) if l.strip() and not l.startswith("#")]
     m = {
         "version": 1,
-        "setup_cmd": "make -C /verif/harness -j16 lib VARIANT=std",
+        "setup_cmd": "make -C /verif/harness -j16 lib VARIANT=std && make -C /verif/harness -j16 lib VARIANT=asan && make -C /verif/harness -j16 lib VARIANT=mpi",
         "hooks": {
             "guard": "FEAT3_VERIF_HOOKS",
             "enable": "harnesses are compiled by /verif/harness/Makefile straight from /repo's working tree with -DFEAT3_VERIF_HOOKS "
